@@ -59,6 +59,11 @@ Definition src_read (onp : nat -> bool) (es : entries) (t : nat) : option bytes 
   view (read_le None (on_path onp es) t).
 Definition dst_read (out : entries) (t : nat) : option bytes := view (read_le None out t).
 
+(* MigrateInstance with transmit=flatten onto another store (copyData, flatten branch): what is visible at V
+   is put at V, nothing else *)
+Definition flatten_at (onp : nat -> bool) (es : entries) (V : nat) : entries :=
+  match src_read onp es V with Some b => [(V, TVal b)] | None => [] end.
+
 Fixpoint ascending (lo : nat) (l : list nat) : bool :=
   match l with [] => true | x :: r => Nat.ltb lo x && ascending x r end.
 
